@@ -125,7 +125,23 @@ def html_to_nodes(
             )
 
         else:
-            children = child.strip().children
+            # drop the white space around the content and around its block-level parts,
+            # but not between two inline parts: e.g. the space in
+            # ``<kbd>Ctrl</kbd> <kbd>C</kbd>`` is content
+            parts = list(child.children)
+            children = [
+                part
+                for index, part in enumerate(parts)
+                if not (
+                    isinstance(part, Data)
+                    and not part.data.strip()
+                    and (
+                        index in (0, len(parts) - 1)
+                        or parts[index - 1].name in ("p", "div")
+                        or parts[index + 1].name in ("p", "div")
+                    )
+                )
+            ]
             title = (
                 "".join(child.render() for child in children.pop(0))
                 if children
